@@ -285,7 +285,7 @@ def tlc_judge(ctx, module, cfg, trace_path, shard=8000, timeout=1800, by_history
     shards = []
     cur = []
     for ln in lines:
-        if len(cur) >= shard and (not by_history or '"reset"' in ln[:80]):
+        if len(cur) >= shard and (not by_history or '"reset":true' in ln):
             shards.append(cur)
             cur = []
         cur.append(ln)
@@ -473,19 +473,22 @@ def index_by_id(trace):
     return {r["id"]: r for r in trace}
 
 
-def collect_failures(trace, bad, family, only_prefix=None):
+def collect_failures(trace, bad, family, only_prefix=None, cases=None):
     """Join judge verdicts with trace records. only_prefix: keep conjuncts of this property
     (names 'Cxx_...') plus unprefixed ones."""
     by = index_by_id(trace)
     res = []
     for b in bad:
         failed = b["failed"]
-        if only_prefix:
+        if only_prefix and not os.environ.get("VERIF_ALLCONJ"):
             failed = [c for c in failed if c.startswith(only_prefix + "_") or not re.match(r"^C\d\d_", c)]
         if not failed:
             continue
         rec = by.get(b["id"])
         if rec is None:
             raise Infra("judge reported unknown id %r" % (b["id"],))
+        if cases is not None and rec.get("cid") in cases:
+            rec = dict(rec)
+            rec["case_full"] = cases[rec["cid"]]
         res.append({"rec": rec, "failed": failed, "family": family})
     return res
